@@ -14,9 +14,12 @@ package main
 import (
 	"fmt"
 	"go/ast"
+	"go/importer"
 	"go/parser"
 	"go/token"
+	"go/types"
 	"os"
+	"sort"
 	"strconv"
 	"strings"
 )
@@ -293,7 +296,7 @@ func genSrc(repo, out string) {
 	sb := &strings.Builder{}
 	w := func(format string, a ...any) { fmt.Fprintf(sb, format, a...) }
 	w("(* GENERATED by `harness gen-src` from the Go source in /repo. Do not edit. *)\n")
-	w("From Coq Require Import ZArith Bool.\nOpen Scope Z_scope.\n\n")
+	w("From Coq Require Import ZArith Bool List.\nImport ListNotations.\nFrom Bio Require Import Base.\nOpen Scope Z_scope.\n\n")
 	trs := map[string]*srcTr{}
 	for _, want := range srcWants {
 		t := trs[want.pkg]
@@ -399,7 +402,177 @@ func genSrc(repo, out string) {
 		}
 		w("\n")
 	}
+	genFmtCalls(repo, w)
 	writeIfChanged(out, sb.String())
+}
+
+// ---- format strings of the writers ------------------------------------------------
+//
+// For each Write method listed below, every call fmt.Fprintf(w, "<literal>", args...)
+// in source order becomes a Gallina function of its arguments that builds the bytes
+// the call writes: literal text as bytes, %s of a string / []byte as the bytes, %d and
+// %v of an integer (int, named int, byte) as Base.itoa, %v of a string as the bytes.
+// The argument types come from go/types. Calls whose format is not a literal (the
+// per-element calls of the BED block lists) are skipped and counted in a comment.
+
+type fmtWant struct {
+	dir, pkg, recv, method string
+}
+
+var fmtWants = []fmtWant{
+	{"formats/fasta", "fasta", "Fasta", "Write"},
+	{"formats/fastq", "fastq", "Fastq", "Write"},
+	{"formats/sam", "sam", "SAM", "Write"},
+	{"formats/bed", "bed", "BED", "Write"},
+}
+
+func genFmtCalls(repo string, w func(string, ...any)) {
+	cwd, _ := os.Getwd()
+	if err := os.Chdir(repo); err != nil { // the source importer resolves module imports from here
+		panic(err)
+	}
+	defer os.Chdir(cwd)
+	for _, want := range fmtWants {
+		fset := token.NewFileSet()
+		pkgs, err := parser.ParseDir(fset, repo+"/"+want.dir, func(fi os.FileInfo) bool { return !strings.HasSuffix(fi.Name(), "_test.go") }, 0)
+		if err != nil {
+			panic(err)
+		}
+		var files []*ast.File
+		for _, p := range pkgs {
+			names := make([]string, 0, len(p.Files))
+			for n := range p.Files {
+				names = append(names, n)
+			}
+			sort.Strings(names)
+			for _, n := range names {
+				files = append(files, p.Files[n])
+			}
+		}
+		info := &types.Info{Types: map[ast.Expr]types.TypeAndValue{}}
+		conf := types.Config{Importer: importer.ForCompiler(fset, "source", nil)}
+		if _, err := conf.Check(want.pkg, fset, files, info); err != nil {
+			panic(fmt.Sprintf("type-checking %s: %v", want.dir, err))
+		}
+		var method *ast.FuncDecl
+		for _, f := range files {
+			for _, d := range f.Decls {
+				fd, ok := d.(*ast.FuncDecl)
+				if !ok || fd.Recv == nil || fd.Name.Name != want.method {
+					continue
+				}
+				rt := fd.Recv.List[0].Type
+				if st, ok := rt.(*ast.StarExpr); ok {
+					rt = st.X
+				}
+				if id, ok := rt.(*ast.Ident); ok && id.Name == want.recv {
+					method = fd
+				}
+			}
+		}
+		if method == nil {
+			panic("method not found: " + want.dir + " " + want.recv + "." + want.method)
+		}
+		w("(* %s: the fmt.Fprintf calls of (%s).%s, in source order *)\n", want.dir, want.recv, want.method)
+		k, dynamic := 0, 0
+		ast.Inspect(method.Body, func(n ast.Node) bool {
+			call, ok := n.(*ast.CallExpr)
+			if !ok {
+				return true
+			}
+			sel, ok := call.Fun.(*ast.SelectorExpr)
+			if !ok || sel.Sel.Name != "Fprintf" {
+				return true
+			}
+			if id, ok := sel.X.(*ast.Ident); !ok || id.Name != "fmt" || len(call.Args) < 2 {
+				return true
+			}
+			lit, ok := call.Args[1].(*ast.BasicLit)
+			if !ok || lit.Kind != token.STRING {
+				dynamic++
+				return true
+			}
+			format, err := strconv.Unquote(lit.Value)
+			if err != nil {
+				panic("bad format literal " + lit.Value)
+			}
+			args := call.Args[2:]
+			var params, pieces []string
+			lits := []byte{}
+			flush := func() {
+				if len(lits) > 0 {
+					nums := make([]string, len(lits))
+					for i, b := range lits {
+						nums[i] = fmt.Sprintf("%d%%N", b)
+					}
+					pieces = append(pieces, "["+strings.Join(nums, "; ")+"]")
+					lits = lits[:0]
+				}
+			}
+			ai := 0
+			for i := 0; i < len(format); i++ {
+				if format[i] != '%' {
+					lits = append(lits, format[i])
+					continue
+				}
+				i++
+				if i >= len(format) {
+					panic("format ends with %")
+				}
+				if format[i] == '%' {
+					lits = append(lits, '%')
+					continue
+				}
+				if ai >= len(args) {
+					panic("too few arguments for " + format)
+				}
+				ty := info.Types[args[ai]].Type
+				if ty == nil {
+					panic("untyped argument in " + format)
+				}
+				kind := ""
+				switch u := ty.Underlying().(type) {
+				case *types.Basic:
+					switch {
+					case u.Info()&types.IsString != 0:
+						kind = "bytes"
+					case u.Info()&types.IsInteger != 0:
+						kind = "int"
+					}
+				case *types.Slice:
+					if b, ok := u.Elem().Underlying().(*types.Basic); ok && b.Kind() == types.Uint8 {
+						kind = "bytes"
+					}
+				}
+				verb := format[i]
+				name := fmt.Sprintf("a%d", ai)
+				flush()
+				switch {
+				case kind == "bytes" && (verb == 's' || verb == 'v'):
+					params = append(params, "("+name+" : list N)")
+					pieces = append(pieces, name)
+				case kind == "int" && (verb == 'd' || verb == 'v'):
+					params = append(params, "("+name+" : Z)")
+					pieces = append(pieces, "itoa "+name)
+				default:
+					panic(fmt.Sprintf("unsupported verb %%%c for %s in %q", verb, ty, format))
+				}
+				ai++
+			}
+			flush()
+			if ai != len(args) {
+				panic("too many arguments for " + format)
+			}
+			body := "[]"
+			if len(pieces) > 0 {
+				body = strings.Join(pieces, " ++ ")
+			}
+			w("Definition src_%s_%s_%d %s : list N := %s.   (* %s *)\n", want.pkg, want.method, k, strings.Join(params, " "), body, strings.ReplaceAll(lit.Value, "*)", "* )"))
+			k++
+			return true
+		})
+		w("(* %d calls with a literal format, %d with a computed format (skipped) *)\n\n", k, dynamic)
+	}
 }
 
 func contains(l []string, s string) bool {
